@@ -136,7 +136,7 @@ def c_optimize_wrapper(h):
     c = u.contract("c", cls)
     maximize = h.ctx.choose(2, "maximize") == 0
     rec = {}
-    parsed_vars = Opaque("objective-coefficients")
+    parsed_vars = u.varlist("objective_variables")  # the parsed objective, as the collection of its variables
     result = Opaque("optimum")
 
     def parse_stub(I, args, kwargs):
